@@ -289,9 +289,11 @@ pub fn judge(cap: usize, end: &str, hist: &[Op], run: &Run, faulty: bool, with_d
         for b in model.step(&o.call, &o.attempts, &o.res) {
             breaches.push((i, b));
         }
-        if !o.attempts.is_empty() {
-            // std's BufWriter does not flush when dropped right after its writer panicked
-            model.inner_panicked = o.scripted_panic;
+        if o.scripted_panic {
+            // std's BufWriter does not flush on drop while it remembers that its writer panicked (it
+            // forgets on its next own write, not on a write that bypasses it): after a panic of the
+            // writer, what a drop leaves unwritten is not judged any more in this history
+            model.inner_panicked = true;
         }
     }
     if with_drop && run.panic.is_none() {
